@@ -19,7 +19,7 @@ RULE = ("cases as in C01 plus aux tables on generated nodes (SCCs, profile, enco
         "with a private exception raised by the k-th get_asm call, plus once with an AsmSyntaxError patch and once with "
         "an undefined-symbol patch. Every resulting IR goes through validate_ir. Non-trivial = (success) the case "
         "deletes a whole block or a patch adds a block; (fault) k > 1, i.e. something was already modified when the "
-        "fault hit; evaluations counts validated IRs, distinct by (spec hash, k).")
+        "fault hit; evaluations counts cases (coverage.notes.fault_runs counts the additional faulted runs), distinct by spec hash.")
 ASSUMPTIONS = [
     "byte intervals may remain split after a failed apply() (the property only asks for closed and serializable)",
     "zero-sized blocks are judged against the four documented reasons using the output IR's own neighbours",
